@@ -272,6 +272,22 @@ class Calls(Interp):
                 raise Outside("arguments to %s()" % ci.name)
             yield st, V(self.mk(ci, []), CLS(ci.name))
             return
+        if st.spec:
+            # in a specification: the value the constructor builds when it accepts its arguments (its checks are the
+            # class's type invariant, not part of the value)
+            sub = st.fork()
+            sub.spec = False
+            loc = next(self.loc_counter)
+            sub.heap[loc] = HeapObj('obj', fields={}, cls=ci.pyclass)
+            outs = [(s, r) for s, r in self.call_function(init, [Ref(loc)] + list(args), kwargs, sub, inline=True)
+                    if not isinstance(r, Raised)]
+            if len(outs) != 1:
+                raise Outside("constructor of %s in a specification has %d normal outcomes" % (ci.name, len(outs)))
+            s1, _r = outs[0]
+            h = s1.heap[loc]
+            ts = [self.term(h.fields[f], fty, s1) for f, fty in ci.fields]
+            yield st, V(self.mk(ci, ts), CLS(ci.name))
+            return
         loc = next(self.loc_counter)
         st.heap[loc] = HeapObj('obj', fields={}, cls=ci.pyclass)
         me = Ref(loc)
